@@ -34,6 +34,10 @@ PROBLEMS = {
     'vti': ('VTI', 'LgResistivity', ('dip',), 'EHE', 2),
     'hti': ('HTI', 'Resistivity', ('mdip',), 'HE', 1),
     'tri': ('triaxial', 'LnConductivity', ('dip',), 'EH', 1),
+    # two sources x two frequencies (result storage by source AND frequency),
+    # observed data with gaps: the first receiver of one pair, a middle one
+    # of another (adjoint sources are assembled from receivers WITH data)
+    'gap': ('isotropic', 'LgConductivity', ('dip', 'point'), 'EHE', 2),
 }
 
 
@@ -70,6 +74,11 @@ def make(pname, gridding, file_dir=None, tol=None, rel=False, gopts=None):
     r = zoo.rng('c08', 'obs', pname)
     d = (r.standard_normal(survey.shape) +
          1j*r.standard_normal(survey.shape))*1e-10
+    if pname == 'gap':
+        d[0, 0, 0] = np.nan + 1j*np.nan      # first receiver, pair (0, 0)
+        d[1, 1, 0] = np.nan + 1j*np.nan      # middle receiver, pair (1, 0)
+        d[0, 1, 1] = np.nan + 1j*np.nan
+        d[0, 2, 1] = np.nan + 1j*np.nan      # last two, pair (0, 1)
     survey.data['observed'] = (survey.data.observed.dims, d)
     kw = {}
     if gridding in ('input', 'dict'):
@@ -162,9 +171,19 @@ def case(c):
                 gt = np.array(sim.jtvec(res*wts))
                 g_after = np.array(sim.gradient)
             tol = 1e-8 if not real else 2e-6
-            sc = np.abs(J).max()
-            e_re = np.abs(Tre - J.real.T).max()/sc
-            e_im = np.abs(Tim - J.imag.T).max()/sc
+            # data slots without a finite observation take no part in J^T
+            # (no residual, no adjoint source): the identity is demanded for
+            # all w supported on the observed slots
+            obs_ok = np.isfinite(np.asarray(
+                sim.data.observed.data)).ravel()
+            sc = np.abs(J[obs_ok]).max()
+            e_re = np.abs(Tre[:, obs_ok] - J.real.T[:, obs_ok]).max()/sc
+            e_im = np.abs(Tim[:, obs_ok] - J.imag.T[:, obs_ok]).max()/sc
+            if (~obs_ok).any() and max(np.abs(Tre[:, ~obs_ok]).max(),
+                                       np.abs(Tim[:, ~obs_ok]).max()) > 0:
+                V('jtvec-uses-data-slots-without-observation',
+                  'J^T e_k is non-zero for a slot k without finite '
+                  'observed data')
             compared += 2*nd
             if not max(e_re, e_im) <= tol:
                 V('jtvec-is-not-the-adjoint-of-jvec',
